@@ -8,6 +8,7 @@
                                              against the patched worktree through VERIF_REPO; prints exit code and time
 
   seeded.py check-all [--only-missing] [id ...]  `check` for every seeded/<id>; outcomes recorded in seeded/results.json
+  seeded.py meta-refresh                      copy the outcome of confirm.json into the 'confirmed' field of meta.json
   seeded.py readme                            regenerate seeded/README.md from meta.json + results.json (+ seeded/NOTES.md)
   seeded.py stage <agent-out-dir> Cxx k       copy the agent's patch<k>.diff / demo<k>.py / notes<k>.md to seeded/Cxx-m<k>/
 
@@ -217,6 +218,30 @@ def readme():
     return 0
 
 
+def meta_refresh():
+    """rewrite the 'confirmed' field of every meta.json from its confirm.json (when that holds a suite result)"""
+    for name in sorted(os.listdir(os.path.join(VERIF, "seeded"))):
+        d = os.path.join(VERIF, "seeded", name)
+        mp, cp = os.path.join(d, "meta.json"), os.path.join(d, "confirm.json")
+        if not (os.path.exists(mp) and os.path.exists(cp)):
+            continue
+        try:
+            c = json.load(open(cp))
+        except ValueError:
+            continue
+        m = json.load(open(mp))
+        txt = "tools/seeded.py confirm%s (repo %s): demo exits %s unpatched, %s patched" % (
+            " --suite" if "suite_ok" in c else "", c.get("repo_rev", "HEAD"), c.get("demo_unpatched_rc"), c.get("demo_patched_rc"))
+        if "suite_ok" in c:
+            txt += "; repository test-suite with the patch: %s (%s)" % ("no stable test lost" if c["suite_ok"] else "LOSES STABLE TESTS",
+                                                                        (c.get("suite") or [""])[0])
+        m["confirmed"] = txt
+        with open(mp, "w") as f:
+            json.dump(m, f, indent=1)
+        print(name, txt[:150])
+    return 0
+
+
 def stage(src, prop, k):
     """copy <src>/patch<k>.diff, demo<k>.py, notes<k>.md to seeded/<prop>-m<k>/"""
     d = os.path.join(VERIF, "seeded", "%s-m%s" % (prop, k))
@@ -239,6 +264,8 @@ if __name__ == "__main__":
         raise SystemExit(__doc__)
     if sys.argv[1] == "check-all":
         sys.exit(check_all("--only-missing" in sys.argv, [a for a in sys.argv[2:] if not a.startswith("-")]))
+    if sys.argv[1] == "meta-refresh":
+        sys.exit(meta_refresh())
     if sys.argv[1] == "readme":
         sys.exit(readme())
     if sys.argv[1] == "stage":
